@@ -67,7 +67,9 @@ def _run_once(module, cfg, *, workdir, workers=None, env=None, timeout=600, simu
     os.makedirs(workdir, exist_ok=True)
     metadir = os.path.join(workdir, "meta")
     shutil.rmtree(metadir, ignore_errors=True)
-    java = ["java", "-XX:+UseParallelGC", "-Xmx6g"]
+    jtmp = os.path.join(workdir, "jtmp")          # TLC leaves a tlc-* directory in java.io.tmpdir per run: keep it out of /tmp
+    os.makedirs(jtmp, exist_ok=True)
+    java = ["java", "-XX:+UseParallelGC", "-Xmx6g", "-Djava.io.tmpdir=" + jtmp]
     if deque:
         java.append("-Dtlc2.tool.queue.IStateQueue=StateDeque")
     cmd = java + ["-cp", JAR_CP, "tlc2.TLC", "-config", cfg, "-metadir", metadir,
@@ -106,6 +108,7 @@ def _run_once(module, cfg, *, workdir, workers=None, env=None, timeout=600, simu
         # (subprocess.run already killed the JVM on timeout; never pkill by path substring: a snapshot of /verif
         # running the same check elsewhere has the same path suffix)
         shutil.rmtree(metadir, ignore_errors=True)
+        shutil.rmtree(jtmp, ignore_errors=True)
     res.wall = time.time() - t0
     out = res.out
     m = None
